@@ -51,6 +51,12 @@ def method_form(ctx, name, N):
     return f, _syn(e)
 
 
+def _returned_local(f):
+    rs = returns(f.node)
+    names = {r.value.id for r in rs if isinstance(r.value, ast.Name)}
+    return names.pop() if len(names) == 1 and all(isinstance(r.value, ast.Name) for r in rs) else None
+
+
 def _syn(e):
     """exact synonyms on an expression built at rule time (a default `slice(None)` substituted for a parameter: X[:, slice(None)] is X)"""
     import copy
@@ -279,7 +285,8 @@ def _r3(ctx):
         return
     O, S_, T_ = f"{obs}[{mask}]", f"{sids}[{mask}]", U(tr)
     # effect = mean of matching observations
-    st = [n for n in walk_own(f.node) if isinstance(n, ast.Assign) and isinstance(n.targets[0], ast.Subscript) and U(n.targets[0].value) == "result"]
+    RES = _returned_local(f) or "result"            # the map under construction: the local the function returns, whatever it is called
+    st = [n for n in walk_own(f.node) if isinstance(n, ast.Assign) and isinstance(n.targets[0], ast.Subscript) and U(n.targets[0].value) == RES]
     vals = {}
     par = enclosing_map(f.node)
     mean_ok = ctl_ok = False
@@ -300,7 +307,7 @@ def _r3(ctx):
     sv, tv = U(outer.target), U(inner_l.target)
     if N.key(inline(outer.iter, env)) != N.key(parse_expr(f"np.unique({sids})")):
         sv, tv = tv, sv            # treatments outside, samples inside
-    keep = {"result", sv, tv}
+    keep = {RES, sv, tv}
     venv = {k: x for k, x in env.items() if k not in keep}
     for n in st:
         key = U(inline(n.targets[0].slice, {k: x for k, x in env.items() if isinstance(x, ast.Tuple)})).replace(" ", "")
@@ -349,7 +356,8 @@ def _r3(ctx):
     gs, gt = g.params[0], g.params[1]
     genv = single_defs(g.node)
     mapn = [k for k, v in genv.items() if call and v is call[0]]
-    stores = [n for n in walk_own(g.node) if isinstance(n, ast.Assign) and len(n.targets) == 1 and isinstance(n.targets[0], ast.Subscript) and U(n.targets[0].value) == "result"]
+    GRES = _returned_local(g) or "result"
+    stores = [n for n in walk_own(g.node) if isinstance(n, ast.Assign) and len(n.targets) == 1 and isinstance(n.targets[0], ast.Subscript) and U(n.targets[0].value) == GRES]
     ok = False
     if wired and len(stores) == 1 and mapn:
         st0 = stores[0]
@@ -436,6 +444,10 @@ def _r4(ctx):
     s_, t_, o_ = f.params[0], f.params[1], f.params[2]
     env = {k: v for k, v in single_defs(f.node).items() if k != "single_treatment_mask"}
     MAP = "single_treatment_effect_map"
+    maps_ = [n.targets[0].id for n in walk_own(f.node) if isinstance(n, ast.Assign) and len(n.targets) == 1 and isinstance(n.targets[0], ast.Name)
+             and isinstance(n.value, ast.Call) and call_name(n.value) == "create_single_treatment_effect_map"]
+    if len(maps_) == 1:
+        MAP = maps_[0]                      # the effect table by role: the local bound to create_single_treatment_effect_map(..)
     # the row loop: the loop (over a zip of the three columns) that contains the effect lookup
     def zip_of(lp_):
         it_ = lp_.iter
@@ -485,7 +497,10 @@ def _r4(ctx):
             syn_list = third.id
     emits = [c for c in calls(lp, tail="append") if U(c.func.value) == syn_list]
     ctx.need(len(emits) == 1, f"{f.site()}: {syn_list}.append(...) not found")
-    val = inline(emits[0].args[0], {k: v for k, v in lenv.items() if k == "synergy" or (isinstance(v, ast.Name) and v.id != obs_var)})
+    val = emits[0].args[0]
+    if isinstance(val, ast.Name) and val.id in lenv:
+        val = lenv[val.id]                              # the emitted value through its one name (`synergy = ..; out.append(synergy)`)
+    val = inline(val, {k: v for k, v in lenv.items() if isinstance(v, ast.Name) and v.id != obs_var})
     effs = None
     if isinstance(val, ast.BinOp) and isinstance(val.op, ast.Sub) and isinstance(val.left, ast.Call) and call_name(val.left) in ("np.prod", "np.product") and len(val.left.args) == 1 \
             and isinstance(val.left.args[0], ast.Name):
@@ -625,13 +640,21 @@ def r6(ctx):
     g = ctx.fn("models.main.generate_full_combinatoric_space")
     S = g.params[1]
     genv = single_defs(g.node)
-    src = U(g.node).replace(" ", "")
-    ok = f"combinations(all_treatments,{S}.treatment_arity)" in src and U(genv.get("all_treatments")).replace(" ", "") == f"zip({S}.treatment_mapping[0],{S}.treatment_mapping[1])"
+    # by role, whatever the locals are called: the one combinations(..) call enumerates the zipped (name, dose) entries of the screen's treatment
+    # mapping at the screen's arity; the names / doses handed to the new screen are columns 0 / 1 of the array made of that enumeration
+    cc = [c for c in calls(g.node) if call_name(c) in ("combinations", "itertools.combinations") and len(c.args) == 2]
+    ok = len(cc) == 1 and U(inline(cc[0].args[0], genv)).replace(" ", "") == f"zip({S}.treatment_mapping[0],{S}.treatment_mapping[1])" \
+        and U(cc[0].args[1]).replace(" ", "") == f"{S}.treatment_arity"
     sites = [s for s in common.screen_sites(ctx) if s.f.qname == g.qname]
     ok = ok and len(sites) == 1 and U(sites[0].kw.get("treatment_mapping")) == f"{S}.treatment_mapping" and U(sites[0].kw.get("sample_mapping")) == f"{S}.sample_mapping"
-    tn = genv.get("treatment_names")
-    td = genv.get("treatment_doses")
-    ok = ok and tn is not None and td is not None and U(tn).replace(" ", "") == "combos[:,:,0]" and U(td).replace(" ", "") == "combos[:,:,1]"
+    if ok:
+        arr = [k for k, v in genv.items() if isinstance(v, ast.Call) and call_name(v) in ("np.array", "np.asarray") and v.args and cc[0] in list(ast.walk(v.args[0]))]
+        def col(e):
+            e = inline(e, {k: v for k, v in genv.items() if k not in arr}) if e is not None else None
+            while isinstance(e, ast.Call) and isinstance(e.func, ast.Attribute) and e.func.attr == "astype":
+                e = e.func.value
+            return U(e).replace(" ", "") if e is not None else None
+        ok = len(arr) == 1 and col(sites[0].kw.get("treatment_names")) == f"{arr[0]}[:,:,0]" and col(sites[0].kw.get("treatment_doses")) == f"{arr[0]}[:,:,1]"
     ctx.check("R6", f"{g.site()}::combinations-of-mapping-entries", ok,
               "synthetic rows = itertools.combinations of the screen's (name, dose) mapping entries, encoded with the screen's own mappings",
               "the synthetic screen is not built from combinations of the screen's mapping entries with the screen's mappings passed through")
